@@ -3,6 +3,7 @@
 #   round 1: /tmp/wt_<ID>/BREAK/{1,2} -> seeded/<ID>-{1,2};  round 2: /tmp/wu_<ID>/BREAK/{1,2} -> seeded/<ID>-{3,4}
 PFX=/tmp/wt_; OFF=0
 if [ "$1" = "--round2" ]; then PFX=/tmp/wu_; OFF=2; shift; fi
+if [ "$1" = "--round3" ]; then PFX=/tmp/wv_; OFF=4; shift; fi
 mkdir -p /tmp/seedlogs
 for p in "$@"; do for k in 1 2; do
   [ -d $PFX$p/BREAK/$k ] && tools/try_seeded.sh $PFX$p/BREAK/$k $p > /tmp/seedlogs/$p-$((k+OFF)).log 2>&1 &
